@@ -215,3 +215,11 @@ def reads_recorded(O):
     C11.SCOPE_OBS["loop"](W)
     C11.SCOPE_OBS["repeat"](W)
     C11.identifier_read(W)
+
+
+@obligation("C15/variables-first", desc="EvalContext::get: a name bound by the program is read from the variable frames whatever "
+            "the driver reports for an output of that name - a program the static gate accepts (it reads no output) evaluates "
+            "the same with every driver")
+def variables_first(O):
+    from . import C04
+    C04.ctx_get(O, rep())
